@@ -733,6 +733,7 @@ enum Ty {
 struct CapGen<'a> {
     rng: &'a mut Rng,
     next: u32,
+    f27_shapes: u32,
 }
 
 impl<'a> CapGen<'a> {
@@ -790,12 +791,12 @@ impl<'a> CapGen<'a> {
                     // new or re-assigned int variable
                     let ints: Vec<u32> = scope.iter().filter(|(_, t)| matches!(t, Ty::Int)).map(|(n, _)| *n).collect();
                     let x = if !ints.is_empty() && self.rng.chance(1, 2) { ints[self.rng.below(ints.len())] } else { self.fresh() };
-                    let e = loop {
-                        let e = self.int_ex(scope, 2, false);
-                        if !read_after_list(x, &e) {
-                            break e;
-                        }
-                    };
+                    // the target may be read anywhere in the right-hand side, also after inline-if
+                    // branches (the shape of F-C02-1, fixed): no filter
+                    let e = self.int_ex(scope, 2, false);
+                    if read_after_list(x, &e) {
+                        self.f27_shapes += 1;
+                    }
                     out.push(Ex::Asg(x, Box::new(e)));
                     if !scope.iter().any(|(n, _)| *n == x) {
                         scope.push((x, Ty::Int));
@@ -870,8 +871,8 @@ fn has_list(e: &Ex) -> bool {
         Ex::Call(_, args) => args.iter().any(has_list),
     }
 }
-/// the generation filter for the documented shape of F-C02-1 (mirrors `readAfterList` in
-/// Model/Capture.lean): in `x = e`, `x` is read at or after the first nested expression list of `e`
+/// the shape of F-C02-1 (fixed): in `x = e`, `x` is read at or after the first nested expression list
+/// of `e`; generated like everything else, only counted
 fn read_after_list(x: u32, e: &Ex) -> bool {
     match e {
         Ex::Lit(_) | Ex::Var(_) => false,
@@ -910,7 +911,7 @@ fn cap_stats(b: &[Ex]) -> (usize, usize, usize) {
 }
 
 fn gen_cap_script(rng: &mut Rng) -> Vec<Ex> {
-    let mut g = CapGen { rng, next: 0 };
+    let mut g = CapGen { rng, next: 0, f27_shapes: 0 };
     let mut scope: Vec<(u32, Ty)> = vec![];
     let mut script = vec![];
     for _ in 0..1 + g.rng.below(3) {
@@ -922,6 +923,597 @@ fn gen_cap_script(rng: &mut Rng) -> Vec<Ex> {
     let body = g.block(&mut scope, 2, lines, true);
     script.extend(body);
     script
+}
+
+
+// ------------------------------------------------------------------------------------------------
+// family `capx` — the parser's capture analysis on the wider statement syntax
+//
+// (K)  for every function literal of the script: Model/CaptureX.lean `accessedX` = the real
+//      parser's `Function::accessed_non_locals` (as sets of names);
+// (D1) completeness: the declaratively free names (`freeX`) ⊆ the real set;
+// (D2) metamorphic run: the closure `f = |p…| body` called after the outer variables were
+//      reassigned gives the same result and trace as `g = |p…, free…| body` called with the values
+//      the free variables had when `f` was created (parameters are never captured, so `g` does not
+//      depend on the analysis) — "a closure sees the values its free variables had when created".
+
+const ID_EMIT: u32 = 9001;
+const ID_SIZE: u32 = 9002;
+
+#[derive(Clone, Debug)]
+enum XT {
+    Id(u32),
+    Short(u32),
+    As(u32),
+}
+
+#[derive(Clone, Debug)]
+enum XN {
+    Lit(i64),
+    Var(u32),
+    Op(&'static str, Box<XN>, Box<XN>),
+    Par(Box<XN>),
+    Ite(Box<XN>, Box<XN>, Box<XN>),
+    Str(Vec<XN>),  // (size '{e}-{e}')
+    Tup(Vec<XN>),  // (size (e, e))
+    Asg(u32, Box<XN>),
+    MAsg(Vec<XT>, Vec<XN>),
+    Fn(Vec<u32>, Vec<XN>),
+    Call(u32, Vec<XN>),
+    If(Box<XN>, Vec<XN>, Vec<XN>),
+    For(u32, Box<XN>, Vec<XN>),       // for v in 0..e
+    While(bool, Box<XN>, Vec<XN>),    // until?, condition
+    Switch(Vec<(XN, XN)>, Box<XN>),
+    Match(Box<XN>, Vec<(Option<u32>, i64, Option<XN>, XN)>, Box<XN>),
+    Yield(Box<XN>),
+}
+
+fn xname(n: u32) -> String {
+    match n {
+        ID_EMIT => "emit".into(),
+        ID_SIZE => "size".into(),
+        _ => format!("v{}", n),
+    }
+}
+
+fn xn_sexp(e: &XN) -> String {
+    let l = |es: &[XN]| es.iter().map(xn_sexp).collect::<Vec<_>>().join(" ");
+    match e {
+        XN::Lit(_) => "(lit)".into(),
+        XN::Var(x) => format!("(var {})", x),
+        XN::Op(_, a, b) => format!("(op {} {})", xn_sexp(a), xn_sexp(b)),
+        XN::Par(a) => format!("(par {})", xn_sexp(a)),
+        XN::Ite(c, t, f) => format!("(ite {} {} {})", xn_sexp(c), xn_sexp(t), xn_sexp(f)),
+        XN::Str(es) => format!("(par (call {} (str {})))", ID_SIZE, l(es)),
+        XN::Tup(es) => format!("(par (call {} (tup {})))", ID_SIZE, l(es)),
+        XN::Asg(x, a) => format!("(asg {} {})", x, xn_sexp(a)),
+        XN::MAsg(ts, es) => format!(
+            "(masg ({}) ({}))",
+            ts.iter()
+                .map(|t| match t {
+                    XT::Id(x) => format!("(id {})", x),
+                    XT::Short(x) => format!("(short {})", x),
+                    XT::As(x) => format!("(as {})", x),
+                })
+                .collect::<Vec<_>>()
+                .join(" "),
+            l(es)
+        ),
+        XN::Fn(ps, b) => format!("(fn ({}) ({}))", ps.iter().map(|p| p.to_string()).collect::<Vec<_>>().join(" "), l(b)),
+        XN::Call(g, args) => format!("(call {}{})", g, args.iter().map(|a| format!(" {}", xn_sexp(a))).collect::<String>()),
+        XN::If(c, t, f) => format!("(ifb {} ({}) ({}))", xn_sexp(c), l(t), l(f)),
+        XN::For(v, hi, b) => format!("(for {} (op (lit) {}) ({}))", v, xn_sexp(hi), l(b)),
+        XN::While(_, c, b) => format!("(while {} ({}))", xn_sexp(c), l(b)),
+        XN::Switch(arms, els) => format!(
+            "(switch ({}) {})",
+            arms.iter().map(|(c, e)| format!("(sarm {} {})", xn_sexp(c), xn_sexp(e))).collect::<Vec<_>>().join(" "),
+            xn_sexp(els)
+        ),
+        XN::Match(subj, arms, els) => format!(
+            "(match {} ({}) {})",
+            xn_sexp(subj),
+            arms.iter()
+                .map(|(p, _, g, e)| format!(
+                    "(marm {} {} {})",
+                    p.map(|x| x.to_string()).unwrap_or("-".into()),
+                    g.as_ref().map(xn_sexp).unwrap_or("-".into()),
+                    xn_sexp(e)
+                ))
+                .collect::<Vec<_>>()
+                .join(" "),
+            xn_sexp(els)
+        ),
+        XN::Yield(a) => format!("(yield {})", xn_sexp(a)),
+    }
+}
+
+/// inline rendering of an expression
+fn xn_koto(e: &XN) -> String {
+    match e {
+        XN::Lit(n) => n.to_string(),
+        XN::Var(x) => xname(*x),
+        XN::Op(o, a, b) => format!("{} {} {}", xn_koto(a), o, xn_koto(b)),
+        XN::Par(a) => format!("({})", xn_koto(a)),
+        XN::Ite(c, t, f) => format!("if {} then {} else {}", xn_koto(c), xn_koto(t), xn_koto(f)),
+        XN::Str(es) => format!("(size '{}')", es.iter().map(|e| format!("{{{}}}", xn_koto(e))).collect::<Vec<_>>().join("-")),
+        XN::Tup(es) => format!("(size ({},))", es.iter().map(xn_koto).collect::<Vec<_>>().join(", ")),
+        XN::Asg(x, a) => format!("{} = {}", xname(*x), xn_koto(a)),
+        XN::Call(g, args) => format!("{}({})", xname(*g), args.iter().map(xn_koto).collect::<Vec<_>>().join(", ")),
+        XN::Yield(a) => format!("yield {}", xn_koto(a)),
+        XN::MAsg(ts, es) => {
+            let t: Vec<String> = ts
+                .iter()
+                .enumerate()
+                .map(|(i, t)| match t {
+                    XT::Id(x) => xname(*x),
+                    XT::Short(x) => format!("{{{}}}", xname(*x)),
+                    XT::As(x) => format!("{{k{} as {}}}", i, xname(*x)),
+                })
+                .collect();
+            let r: Vec<String> = ts
+                .iter()
+                .zip(es.iter())
+                .enumerate()
+                .map(|(i, (t, e))| match t {
+                    XT::Id(_) => xn_koto(e),
+                    XT::Short(x) => format!("{{{}: {}}}", xname(*x), xn_koto(e)),
+                    XT::As(_) => format!("{{k{}: {}}}", i, xn_koto(e)),
+                })
+                .collect();
+            format!("{} = {}", t.join(", "), r.join(", "))
+        }
+        _ => "<block-form>".into(),
+    }
+}
+
+fn xn_block(b: &[XN], indent: usize, out: &mut String) {
+    let pad = "  ".repeat(indent);
+    for s in b {
+        match s {
+            XN::Asg(x, e) => match &**e {
+                XN::Fn(ps, body) => {
+                    out.push_str(&format!("{}{} = |{}|\n", pad, xname(*x), ps.iter().map(|p| xname(*p)).collect::<Vec<_>>().join(", ")));
+                    xn_block(body, indent + 1, out);
+                }
+                XN::Switch(arms, els) => {
+                    out.push_str(&format!("{}{} = switch\n", pad, xname(*x)));
+                    for (c, e) in arms {
+                        out.push_str(&format!("{}  {} then {}\n", pad, xn_koto(c), xn_koto(e)));
+                    }
+                    out.push_str(&format!("{}  else {}\n", pad, xn_koto(els)));
+                }
+                XN::Match(subj, arms, els) => {
+                    out.push_str(&format!("{}{} = match {}\n", pad, xname(*x), xn_koto(subj)));
+                    for (p, lit, g, e) in arms {
+                        let pat = p.map(xname).unwrap_or(lit.to_string());
+                        let guard = g.as_ref().map(|g| format!(" if {}", xn_koto(g))).unwrap_or_default();
+                        out.push_str(&format!("{}  {}{} then {}\n", pad, pat, guard, xn_koto(e)));
+                    }
+                    out.push_str(&format!("{}  else {}\n", pad, xn_koto(els)));
+                }
+                _ => out.push_str(&format!("{}{}\n", pad, xn_koto(s))),
+            },
+            XN::If(c, t, f) => {
+                out.push_str(&format!("{}if {}\n", pad, xn_koto(c)));
+                xn_block(t, indent + 1, out);
+                if !f.is_empty() {
+                    out.push_str(&format!("{}else\n", pad));
+                    xn_block(f, indent + 1, out);
+                }
+            }
+            XN::For(v, hi, body) => {
+                out.push_str(&format!("{}for {} in 0..{}\n", pad, xname(*v), xn_koto(hi)));
+                xn_block(body, indent + 1, out);
+            }
+            XN::While(until, c, body) => {
+                out.push_str(&format!("{}{} {}\n", pad, if *until { "until" } else { "while" }, xn_koto(c)));
+                xn_block(body, indent + 1, out);
+            }
+            _ => out.push_str(&format!("{}{}\n", pad, xn_koto(s))),
+        }
+    }
+}
+
+struct XGen<'a> {
+    rng: &'a mut Rng,
+    next: u32,
+    generator: bool,
+}
+
+impl<'a> XGen<'a> {
+    fn fresh(&mut self) -> u32 {
+        self.next += 1;
+        self.next
+    }
+    fn atom(&mut self, ints: &[u32]) -> XN {
+        if !ints.is_empty() && self.rng.chance(2, 3) {
+            XN::Var(ints[self.rng.below(ints.len())])
+        } else {
+            XN::Lit(self.rng.range(0, 5))
+        }
+    }
+    fn cond(&mut self, ints: &[u32]) -> XN {
+        let op = ["<", "<=", "==", "!=", ">"][self.rng.below(5)];
+        XN::Op(op, Box::new(self.atom(ints)), Box::new(self.atom(ints)))
+    }
+    /// int-typed expression; `assignable`: variables that may be assigned by nested assignments
+    fn ex(&mut self, ints: &mut Vec<u32>, funs: &[(u32, usize)], assignable: &[u32], depth: u32, operand: bool) -> XN {
+        if depth == 0 {
+            return self.atom(ints);
+        }
+        let k = self.rng.weighted(&[22, 26, 8, 12, 8, 6, if assignable.is_empty() { 0 } else { 8 }, if funs.is_empty() { 0 } else { 12 }]);
+        let e = match k {
+            0 => return self.atom(ints),
+            1 => {
+                let a = self.ex(ints, funs, assignable, depth - 1, true);
+                let b = self.ex(ints, funs, assignable, depth - 1, true);
+                XN::Op(if self.rng.chance(1, 2) { "+" } else { "-" }, Box::new(a), Box::new(b))
+            }
+            2 => XN::Par(Box::new(self.ex(ints, funs, assignable, depth - 1, false))),
+            3 => {
+                let c = self.cond(ints);
+                let t = self.ex(ints, funs, assignable, depth - 1, true);
+                let f = self.ex(ints, funs, assignable, depth - 1, true);
+                XN::Ite(Box::new(c), Box::new(t), Box::new(f))
+            }
+            4 => {
+                let n = 1 + self.rng.below(3);
+                return XN::Str((0..n).map(|_| self.ex(ints, funs, assignable, depth - 1, false)).collect());
+            }
+            5 => {
+                let n = 1 + self.rng.below(3);
+                return XN::Tup((0..n).map(|_| self.ex(ints, funs, assignable, depth - 1, true)).collect());
+            }
+            6 => {
+                // assignment nested in an expression, value = the assigned value
+                let x = assignable[self.rng.below(assignable.len())];
+                let r = self.ex(ints, funs, assignable, depth - 1, false);
+                if !ints.contains(&x) {
+                    ints.push(x);
+                }
+                return XN::Par(Box::new(XN::Asg(x, Box::new(r))));
+            }
+            _ => {
+                let (f, ar) = funs[self.rng.below(funs.len())];
+                let args = (0..ar).map(|_| self.ex(ints, funs, assignable, depth - 1, true)).collect();
+                return XN::Call(f, args);
+            }
+        };
+        match (&e, operand) {
+            (XN::Op(..) | XN::Ite(..), true) => XN::Par(Box::new(e)),
+            _ => e,
+        }
+    }
+
+    /// lines of a function body / block. `ints`: readable int variables (captured, parameters,
+    /// locals), `frozen`: loop counters that must not be assigned
+    fn lines(&mut self, ints: &mut Vec<u32>, funs: &mut Vec<(u32, usize)>, frozen: &[u32], fn_depth: u32, depth: u32, n: usize) -> Vec<XN> {
+        let mut out = vec![];
+        for _ in 0..n {
+            let assignable: Vec<u32> = ints.iter().copied().filter(|x| !frozen.contains(x)).collect();
+            let block_ok = depth > 0;
+            let k = self.rng.weighted(&[
+                26,
+                8,
+                if block_ok { 12 } else { 0 },
+                if block_ok { 8 } else { 0 },
+                if block_ok { 8 } else { 0 },
+                8,
+                8,
+                10,
+                if fn_depth > 0 { 10 } else { 0 },
+                if self.generator { 10 } else { 0 },
+                8,
+            ]);
+            match k {
+                0 => {
+                    // x = e (x existing or new; e may read x anywhere)
+                    let x = if !assignable.is_empty() && self.rng.chance(2, 3) { assignable[self.rng.below(assignable.len())] } else { self.fresh() };
+                    let e = self.ex(ints, funs, &assignable, 2, false);
+                    out.push(XN::Asg(x, Box::new(e)));
+                    if !ints.contains(&x) {
+                        ints.push(x);
+                    }
+                }
+                1 => out.push(XN::Call(ID_EMIT, vec![self.ex(ints, funs, &assignable, 2, false)])),
+                2 => {
+                    // block if: the header reads, the branches assign
+                    let c = self.cond(ints);
+                    let mut i1 = ints.clone();
+                    let n1 = 1 + self.rng.below(3);
+                    let t = self.lines(&mut i1, &mut funs.clone(), frozen, fn_depth, depth - 1, n1);
+                    let f = if self.rng.chance(1, 2) {
+                        let mut i2 = ints.clone();
+                        let n2 = 1 + self.rng.below(2);
+                        self.lines(&mut i2, &mut funs.clone(), frozen, fn_depth, depth - 1, n2)
+                    } else {
+                        vec![]
+                    };
+                    out.push(XN::If(Box::new(c), t, f));
+                }
+                3 => {
+                    // for v in 0..e : v is always a fresh name (`for x in 0..x` with a captured x is
+                    // the shape of F-C02-6, not generated)
+                    let v = self.fresh();
+                    let hi = if self.rng.chance(1, 2) { self.atom(ints) } else { XN::Lit(self.rng.range(0, 3)) };
+                    let hi = match hi {
+                        XN::Var(x) => XN::Par(Box::new(XN::Op("-", Box::new(XN::Var(x)), Box::new(XN::Par(Box::new(XN::Op("-", Box::new(XN::Var(x)), Box::new(XN::Lit(2))))))))),
+                        other => other,
+                    };
+                    let mut i1 = ints.clone();
+                    i1.push(v);
+                    let mut fr = frozen.to_vec();
+                    fr.push(v);
+                    let n1 = 1 + self.rng.below(3);
+                    let body = self.lines(&mut i1, &mut funs.clone(), &fr, fn_depth, depth - 1, n1);
+                    out.push(XN::For(v, Box::new(hi), body));
+                }
+                4 => {
+                    // counter controlled while / until; the condition also reads a variable that
+                    // the body may assign
+                    let kv = self.fresh();
+                    out.push(XN::Asg(kv, Box::new(XN::Lit(0))));
+                    ints.push(kv);
+                    let bound = self.rng.range(0, 3);
+                    let until = self.rng.chance(1, 2);
+                    let c = if until {
+                        XN::Op(">=", Box::new(XN::Var(kv)), Box::new(XN::Lit(bound)))
+                    } else {
+                        XN::Op("<", Box::new(XN::Var(kv)), Box::new(XN::Lit(bound)))
+                    };
+                    let extra = self.atom(ints);
+                    let c = if until {
+                        XN::Op("or", Box::new(c), Box::new(XN::Par(Box::new(XN::Op(">", Box::new(extra), Box::new(XN::Lit(1000000)))))))
+                    } else {
+                        XN::Op("and", Box::new(c), Box::new(XN::Par(Box::new(XN::Op("<", Box::new(extra), Box::new(XN::Lit(1000000)))))))
+                    };
+                    let mut i1 = ints.clone();
+                    let mut fr = frozen.to_vec();
+                    fr.push(kv);
+                    let n1 = 1 + self.rng.below(3);
+                    let mut body = self.lines(&mut i1, &mut funs.clone(), &fr, fn_depth, depth - 1, n1);
+                    body.push(XN::Asg(kv, Box::new(XN::Op("+", Box::new(XN::Var(kv)), Box::new(XN::Lit(1))))));
+                    out.push(XN::While(until, Box::new(c), body));
+                }
+                5 => {
+                    // x = switch …
+                    let x = if !assignable.is_empty() && self.rng.chance(1, 2) { assignable[self.rng.below(assignable.len())] } else { self.fresh() };
+                    let n_arms = 1 + self.rng.below(2);
+                    let arms = (0..n_arms).map(|_| (self.cond(ints), self.ex(ints, funs, &[], 1, true))).collect();
+                    let els = self.ex(ints, funs, &[], 1, true);
+                    out.push(XN::Asg(x, Box::new(XN::Switch(arms, Box::new(els)))));
+                    if !ints.contains(&x) {
+                        ints.push(x);
+                    }
+                }
+                6 => {
+                    // x = match subject / literal and binding patterns with guards
+                    let x = if !assignable.is_empty() && self.rng.chance(1, 2) { assignable[self.rng.below(assignable.len())] } else { self.fresh() };
+                    let subj = self.ex(ints, funs, &[], 1, false);
+                    let mut arms = vec![(None, self.rng.range(0, 4), None, self.ex(ints, funs, &[], 1, true))];
+                    if self.rng.chance(2, 3) {
+                        let y = self.fresh();
+                        let mut i1 = ints.clone();
+                        i1.push(y);
+                        let guard = if self.rng.chance(2, 3) { Some(self.cond(&i1)) } else { None };
+                        let body = self.ex(&mut i1, funs, &[], 1, true);
+                        let has_guard = guard.is_some();
+                        arms.push((Some(y), 0, guard, body));
+                        if !has_guard {
+                            // a binding pattern without guard always matches: it is the last arm
+                        }
+                    }
+                    let els = self.ex(ints, funs, &[], 1, true);
+                    out.push(XN::Asg(x, Box::new(XN::Match(Box::new(subj), arms, Box::new(els)))));
+                    if !ints.contains(&x) {
+                        ints.push(x);
+                    }
+                }
+                7 => {
+                    // multi-assignment with ids, {x} and {k as x}; the right-hand sides read the
+                    // same-named (outer) variables
+                    let n_t = 2 + self.rng.below(2);
+                    let mut ts = vec![];
+                    let mut es = vec![];
+                    let mut used = vec![];
+                    for _ in 0..n_t {
+                        let cands: Vec<u32> = assignable.iter().copied().filter(|x| !used.contains(x)).collect();
+                        let x = if !cands.is_empty() && self.rng.chance(2, 3) { cands[self.rng.below(cands.len())] } else { self.fresh() };
+                        used.push(x);
+                        ts.push(match self.rng.below(3) {
+                            0 => XT::Id(x),
+                            1 => XT::Short(x),
+                            _ => XT::As(x),
+                        });
+                    }
+                    for _ in 0..n_t {
+                        let e = self.ex(ints, funs, &[], 1, true);
+                        es.push(e);
+                    }
+                    // make sure the targets' current values are read on the right
+                    for (i, x) in used.iter().enumerate() {
+                        if ints.contains(x) && self.rng.chance(1, 2) {
+                            es[(i + 1) % n_t] = XN::Var(*x);
+                        }
+                    }
+                    out.push(XN::MAsg(ts, es));
+                    for x in used {
+                        if !ints.contains(&x) {
+                            ints.push(x);
+                        }
+                    }
+                }
+                8 => {
+                    // nested closure (1–3 deep), called later
+                    let f = self.fresh();
+                    let ar = self.rng.below(2);
+                    let ps: Vec<u32> = (0..ar).map(|_| self.fresh()).collect();
+                    let mut i1 = ints.clone();
+                    i1.extend(ps.iter().copied());
+                    let was_gen = self.generator;
+                    self.generator = false;
+                    let n1 = 1 + self.rng.below(3);
+                    let mut body = self.lines(&mut i1, &mut funs.clone(), &[], fn_depth - 1, 1, n1);
+                    body.push(self.ex(&mut i1, funs, &[], 1, false));
+                    self.generator = was_gen;
+                    out.push(XN::Asg(f, Box::new(XN::Fn(ps, body))));
+                    funs.push((f, ar));
+                }
+                9 => out.push(XN::Yield(Box::new(self.ex(ints, funs, &assignable, 1, false)))),
+                _ => out.push(self.ex(ints, funs, &assignable, 2, false)),
+            }
+        }
+        out
+    }
+}
+
+#[derive(Clone, Debug)]
+struct CapxCase {
+    outer: Vec<(u32, i64)>,
+    params: Vec<u32>,
+    args: Vec<i64>,
+    body: Vec<XN>,
+    generator: bool,
+    f: u32,
+}
+
+impl CapxCase {
+    fn script_ast(&self) -> Vec<XN> {
+        let mut s: Vec<XN> = self.outer.iter().map(|(x, v)| XN::Asg(*x, Box::new(XN::Lit(*v)))).collect();
+        s.push(XN::Asg(self.f, Box::new(XN::Fn(self.params.clone(), self.body.clone()))));
+        s
+    }
+    fn request(&self) -> String {
+        format!("capx {}", self.script_ast().iter().map(xn_sexp).collect::<Vec<_>>().join(" "))
+    }
+    /// script A (closure); `extra` = free variables passed as parameters instead (script B)
+    fn koto(&self, extra: Option<&[u32]>) -> String {
+        let mut s = String::new();
+        for (x, v) in &self.outer {
+            s.push_str(&format!("{} = {}\n", xname(*x), v));
+        }
+        let mut ps = self.params.clone();
+        if let Some(e) = extra {
+            ps.extend(e.iter().copied());
+        }
+        s.push_str(&format!("{} = |{}|\n", xname(self.f), ps.iter().map(|p| xname(*p)).collect::<Vec<_>>().join(", ")));
+        xn_block(&self.body, 1, &mut s);
+        // the values at creation time, then the outer variables are rebound
+        let mut args: Vec<String> = self.args.iter().map(|a| a.to_string()).collect();
+        if let Some(e) = extra {
+            for x in e {
+                let v = self.outer.iter().find(|(y, _)| y == x).map(|p| p.1.to_string()).unwrap_or("null".into());
+                args.push(v);
+            }
+        }
+        for (x, _) in &self.outer {
+            s.push_str(&format!("{} = 1000\n", xname(*x)));
+        }
+        if self.generator {
+            s.push_str(&format!("{}({}).to_tuple()\n", xname(self.f), args.join(", ")));
+        } else {
+            s.push_str(&format!("{}({})\n", xname(self.f), args.join(", ")));
+        }
+        s
+    }
+}
+
+fn gen_capx(rng: &mut Rng) -> CapxCase {
+    let n_outer = 1 + rng.below(4);
+    let outer: Vec<(u32, i64)> = (0..n_outer).map(|i| (i as u32 + 1, rng.range(0, 5))).collect();
+    let n_params = rng.below(3);
+    let mut next = n_outer as u32;
+    let params: Vec<u32> = (0..n_params).map(|_| { next += 1; next }).collect();
+    let args: Vec<i64> = (0..n_params).map(|_| rng.range(0, 5)).collect();
+    next += 1;
+    let f = next;
+    let generator = rng.chance(1, 4);
+    let mut g = XGen { rng, next, generator };
+    let mut ints: Vec<u32> = outer.iter().map(|p| p.0).chain(params.iter().copied()).collect();
+    let mut funs = vec![];
+    let n = 2 + g.rng.below(5);
+    let mut body = g.lines(&mut ints, &mut funs, &[], 3, 2, n);
+    if generator {
+        if !body.iter().any(|l| matches!(l, XN::Yield(_))) {
+            let e = g.ex(&mut ints, &funs, &[], 1, false);
+            body.push(XN::Yield(Box::new(e)));
+        }
+    } else {
+        let e = g.ex(&mut ints, &funs, &[], 2, false);
+        body.push(e);
+    }
+    CapxCase { outer, params, args, body, generator, f }
+}
+
+/// the real parser's `accessed_non_locals` for every function literal, in AST (post-)order
+fn real_accessed(src: &str) -> Result<Vec<Vec<String>>, String> {
+    let ast = koto_parser::Parser::parse(src).map_err(|e| e.to_string())?;
+    let mut out = vec![];
+    for n in ast.nodes() {
+        if let koto_parser::Node::Function(f) = &n.node {
+            let mut names: Vec<String> = f.accessed_non_locals.iter().map(|c| ast.constants().get_str(*c).to_string()).collect();
+            names.sort();
+            names.dedup();
+            out.push(names);
+        }
+    }
+    Ok(out)
+}
+
+fn parse_name_list(s: &str) -> Vec<u32> {
+    s.trim_matches(|c| c == '(' || c == ')').split(' ').filter_map(|x| x.parse().ok()).collect()
+}
+
+/// evaluates one capx case; returns Err(why, implementation text, model text) on a violation
+fn capx_check(rt: &mut Runtime, case: &CapxCase, model: &str) -> Result<(), (String, String, String)> {
+    let a = case.koto(None);
+    let real = match real_accessed(&a) {
+        Ok(r) => r,
+        Err(e) => return Err(("the generated script does not parse".into(), e, model.to_string())),
+    };
+    // model: `a=(…) f=(…) ; …`
+    let mut m_acc: Vec<Vec<String>> = vec![];
+    let mut m_free: Vec<Vec<u32>> = vec![];
+    for part in model.split(" ; ").filter(|p| !p.is_empty()) {
+        let (pa, pf) = part.split_once(" f=").unwrap_or((part, "()"));
+        let mut names: Vec<String> = parse_name_list(pa.trim_start_matches("a=")).iter().map(|n| xname(*n)).collect();
+        names.sort();
+        names.dedup();
+        m_acc.push(names);
+        m_free.push(parse_name_list(pf));
+    }
+    let real_text = format!("{:?}", real);
+    if real.len() != m_acc.len() {
+        return Err(("number of function literals differs".into(), real_text, model.to_string()));
+    }
+    for (i, (r, m)) in real.iter().zip(m_acc.iter()).enumerate() {
+        // (D1) completeness first: it is the property
+        for x in &m_free[i] {
+            if !r.contains(&xname(*x)) {
+                return Err((
+                    format!("capture lost: function #{} reads `{}` before it is local, but the parser's accessed_non_locals is {:?}", i, xname(*x), r),
+                    real_text,
+                    model.to_string(),
+                ));
+            }
+        }
+        if r != m {
+            return Err((format!("accessed_non_locals of function #{} differs from Model/CaptureX.lean accessedX", i), real_text, model.to_string()));
+        }
+    }
+    // (D2) closure vs parameters
+    let free_outer: Vec<u32> = m_free.last().map(|f| f.iter().copied().filter(|x| case.outer.iter().any(|(y, _)| y == x)).collect()).unwrap_or_default();
+    let b = case.koto(Some(&free_outer));
+    let (ra, ta) = rt.run(&a);
+    let (rb, tb) = rt.run(&b);
+    if ra != rb || ta != tb {
+        return Err((
+            "the closure called after its free variables were rebound differs from the same body with the free variables passed as parameters (values at creation)".into(),
+            format!("closure: {} | {}  ;  parameters: {} | {}", ta.join(" "), ra, tb.join(" "), rb),
+            model.to_string(),
+        ));
+    }
+    Ok(())
 }
 
 // ------------------------------------------------------------------------------------------------
@@ -1443,6 +2035,7 @@ struct Pending {
     nontrivial: bool,
     expect_trace: Option<Vec<String>>, // bind: ticks at creation
     ast: Option<CaseAst>,
+    capx: Option<CapxCase>,
 }
 
 /// the abstract case a script was rendered from (what the shrinker works on)
@@ -1790,6 +2383,55 @@ impl Ctx {
             None => vec![String::new(); reqs.len()],
         };
         for (c, model) in cases.iter().zip(resps.iter()) {
+            if let Some(cx) = &c.capx {
+                self.rep.case(&c.request, c.nontrivial);
+                self.rep.bump("family=capx");
+                if self.drv.is_none() {
+                    continue;
+                }
+                if let Err((why, impl_text, m)) = capx_check(&mut self.rt, cx, model) {
+                    // shrink: drop body lines (outermost first) while the same kind of failure stays
+                    let kind = why.split(':').next().unwrap_or("").to_string();
+                    let mut cur = cx.clone();
+                    let mut best = (why, impl_text, m);
+                    let mut budget = 300;
+                    'shrink: loop {
+                        for cand in capx_candidates(&cur) {
+                            if budget == 0 {
+                                break 'shrink;
+                            }
+                            budget -= 1;
+                            let m2 = self.drv.as_mut().unwrap().ask(&cand.request());
+                            if let Err((w2, i2, mm2)) = capx_check(&mut self.rt, &cand, &m2) {
+                                if w2.split(':').next().unwrap_or("") == kind {
+                                    best = (w2, i2, mm2);
+                                    cur = cand;
+                                    continue 'shrink;
+                                }
+                            }
+                        }
+                        break;
+                    }
+                    self.rep.violation(
+                        "D",
+                        "K:C02:capx",
+                        json!({
+                            "family": "capx",
+                            "program": cur.koto(None),
+                            "request": cur.request(),
+                            "implementation": best.1,
+                            "model": best.2,
+                            "why": best.0,
+                            "original_program": c.script,
+                            "original_request": c.request,
+                            "note": "capture analysis on the wider syntax: accessed_non_locals of the real parser vs Model/CaptureX.lean, completeness against the declarative free variables, closure vs parameter run",
+                        }),
+                    );
+                } else {
+                    self.rep.sample(json!({"family": "capx", "request": c.request, "script": c.script, "model": model}));
+                }
+                continue;
+            }
             let (res, trace) = self.rt.run(&c.script);
             self.rep.case(&c.request, c.nontrivial);
             self.rep.bump(&format!("family={}", c.family));
@@ -1923,6 +2565,95 @@ fn compare(c: &Pending, res: &str, trace: &[String], model: &str) -> (bool, Stri
     }
 }
 
+fn capx_case(c: &CapxCase) -> Pending {
+    Pending { family: "capx", request: c.request(), script: c.koto(None), nontrivial: true, expect_trace: None, ast: None, capx: Some(c.clone()) }
+}
+
+/// smaller capx cases: a line removed anywhere in the body (blocks stay non-empty), a compound line
+/// replaced by one of its blocks, an outer variable or parameter dropped
+fn capx_candidates(c: &CapxCase) -> Vec<CapxCase> {
+    fn shrink_lines(b: &[XN]) -> Vec<Vec<XN>> {
+        let mut out = vec![];
+        if b.len() > 1 {
+            for i in 0..b.len() {
+                let mut v = b.to_vec();
+                v.remove(i);
+                out.push(v);
+            }
+        }
+        for i in 0..b.len() {
+            let mut subs: Vec<XN> = vec![];
+            let mut splices: Vec<Vec<XN>> = vec![];
+            match &b[i] {
+                XN::If(c, t, f) => {
+                    splices.push(t.clone());
+                    if !f.is_empty() {
+                        splices.push(f.clone());
+                    }
+                    for t2 in shrink_lines(t) {
+                        subs.push(XN::If(c.clone(), t2, f.clone()));
+                    }
+                    for f2 in shrink_lines(f) {
+                        subs.push(XN::If(c.clone(), t.clone(), f2));
+                    }
+                    if !f.is_empty() {
+                        subs.push(XN::If(c.clone(), t.clone(), vec![]));
+                    }
+                }
+                XN::For(v, hi, body) => {
+                    for b2 in shrink_lines(body) {
+                        subs.push(XN::For(*v, hi.clone(), b2));
+                    }
+                }
+                XN::While(u, c, body) => {
+                    if body.len() > 1 {
+                        for b2 in shrink_lines(&body[..body.len() - 1]) {
+                            let mut b3 = b2;
+                            b3.push(body[body.len() - 1].clone());
+                            subs.push(XN::While(*u, c.clone(), b3));
+                        }
+                    }
+                }
+                XN::Asg(x, e) => {
+                    if let XN::Fn(ps, body) = &**e {
+                        for b2 in shrink_lines(body) {
+                            subs.push(XN::Asg(*x, Box::new(XN::Fn(ps.clone(), b2))));
+                        }
+                    } else if !matches!(**e, XN::Lit(_)) {
+                        subs.push(XN::Asg(*x, Box::new(XN::Lit(0))));
+                    }
+                }
+                _ => {}
+            }
+            for sp in splices {
+                let mut v = b[..i].to_vec();
+                v.extend(sp);
+                v.extend_from_slice(&b[i + 1..]);
+                out.push(v);
+            }
+            for sub in subs {
+                let mut v = b.to_vec();
+                v[i] = sub;
+                out.push(v);
+            }
+        }
+        out
+    }
+    let mut out = vec![];
+    for b in shrink_lines(&c.body) {
+        if c.generator && !format!("{:?}", b).contains("Yield") {
+            continue;
+        }
+        out.push(CapxCase { body: b, ..c.clone() });
+    }
+    for i in 0..c.outer.len() {
+        let mut c2 = c.clone();
+        c2.outer.remove(i);
+        out.push(c2);
+    }
+    out
+}
+
 fn bind_case(d: &Def, c: &Call) -> Pending {
     let ticks: Vec<String> = (0..d.n_opt()).map(|i| format!("t{}", i)).collect();
     Pending {
@@ -1932,6 +2663,7 @@ fn bind_case(d: &Def, c: &Call) -> Pending {
         nontrivial: d.params.len() + d.caps.len() >= 1,
         expect_trace: Some(ticks),
         ast: Some(CaseAst::Bind(d.clone(), c.clone())),
+        capx: None,
     }
 }
 
@@ -1945,6 +2677,7 @@ fn cap_case(script: &[Ex]) -> Pending {
         nontrivial: script.iter().any(|e| matches!(e, Ex::Asg(_, b) if matches!(**b, Ex::Fn(..)))),
         expect_trace: None,
         ast: Some(CaseAst::Cap(script.to_vec())),
+        capx: None,
     }
 }
 
@@ -1961,11 +2694,12 @@ fn share_case(ops: &[SOp]) -> Pending {
         nontrivial: ops.iter().any(|o| matches!(o, SOp::Call(..))),
         expect_trace: None,
         ast: Some(CaseAst::Share(ops.to_vec())),
+        capx: None,
     }
 }
 
 fn gen_case(g: &GenCase) -> Pending {
-    Pending { family: "gen", request: g.request(), script: g.koto(), nontrivial: true, expect_trace: None, ast: Some(CaseAst::Gen(g.clone())) }
+    Pending { family: "gen", request: g.request(), script: g.koto(), nontrivial: true, expect_trace: None, ast: Some(CaseAst::Gen(g.clone())), capx: None }
 }
 
 /// hand-written cases that pin the mutation classes of DESIGN §11 and the guide's own examples
@@ -2146,7 +2880,7 @@ fn corpus_cases(ctx: &mut Ctx, dir: &std::path::Path) {
         };
         let expect_trace = None;
         ctx.rep.bump("corpus");
-        ctx.push(Pending { family, request: req, script: script.to_string(), nontrivial: true, expect_trace, ast: None });
+        ctx.push(Pending { family, request: req, script: script.to_string(), nontrivial: true, expect_trace, ast: None, capx: None });
     }
 }
 
@@ -2224,6 +2958,7 @@ fn main() {
             nontrivial: true,
             expect_trace: None,
             ast: None,
+            capx: None,
         });
         ctx.flush();
         std::process::exit(ctx.rep.finish());
@@ -2315,6 +3050,15 @@ fn main() {
             ctx.rep.bump("cap:recursive");
         }
         ctx.push(cap_case(&s));
+    }
+    // ---- capx -------------------------------------------------------------------------------
+    let n_capx = if thorough { 150000 } else { 8000 };
+    for _ in 0..n_capx {
+        let c = gen_capx(&mut rng);
+        if c.generator {
+            ctx.rep.bump("capx:generator");
+        }
+        ctx.push(capx_case(&c));
     }
     // ---- share ------------------------------------------------------------------------------
     let n_share = if thorough { 150000 } else { 8000 };
